@@ -20,6 +20,7 @@ import nfc.tag.tt3
 import nfc.tag.tt4
 from sim.c16_tags import SimT1, SimT2, SimT3, NdefApplet
 from sim.picc import SimPicc
+from sim.vendor_nxp import SimNxp
 
 PID = "C16"
 KINDS = ("timeout", "transmission", "protocol")
@@ -60,18 +61,54 @@ class FaultClf(object):
         self.curcc = "-"
         self.clean = []
         self.activation = False  # the operation under test is nfc.tag.activate(): every exchange is of class "act"
+        # like nfc.ContactlessFrontend: a failed sense() clears the frontend's target and exchange() then returns None
+        self.present = True      # the frontend has a target
+        self.gone = False        # the tag has left the field
+        self.gone_at = None      # script: the tag leaves right before the k-th sense() of the operation
+        self.nsense = 0
+        self.tagobj = None
+
+    def tp(self):
+        """`tag.target is not None` of the tag object under test (the frontend's own target while activating)"""
+        if isinstance(self.tagobj, nfc.tag.Tag):
+            return self.tagobj.target is not None
+        return bool(self.present)
 
     def sense(self, target, **kw):
-        return target           # the tag is still there (Type 2 re-sense after a NAK)
+        if self.armed:
+            self.nsense += 1
+            if self.gone_at == self.nsense:
+                self.gone = True
+        if self.gone:
+            self.present = False
+            if self.armed:
+                self.ev.append(dict(e="Sense", res=False))
+            return None
+        if hasattr(self.sim, "activate") and self.proto == "T2":
+            self.sim.activate()  # REQA / anticollision / SELECT: a tag that went mute after a NAK is selected again
+        self.present = True
+        if self.armed:
+            self.ev.append(dict(e="Sense", res=True))
+        return target
 
     def arm(self, script):
-        self.armed, self.script = True, script
+        self.armed = True
+        if script and "gone" in script:
+            self.gone_at, script = script["gone"], None
+        self.script = script
+
+    def rearm(self):
+        """start recording a further operation on the same objects"""
+        self.ev, self.npos, self.left, self.last, self.cur, self.curcc, self.clean = [], 0, 0, None, None, "-", []
+        self.script, self.gone_at, self.nsense = None, None, 0
 
     def _cc(self, data):
         if self.activation:
             return "act"
         if self.proto == "T2" and self.sim.expects_packet2():
             return "ssel2"
+        if self.proto == "T2" and data[0] in (0x1A, 0xAF) and len(data) in (2, 17):
+            return "nonce"                                   # Ultralight C AUTHENTICATE part 1 / part 2
         if self.proto == "T4":
             pcb = data[0]
             if pcb & 0xE2 == 0x02:
@@ -100,6 +137,12 @@ class FaultClf(object):
                 raise nfc.clf.TimeoutError("mute")
             return bytearray(rsp)
         cc = self._cc(data)
+        if not self.present:
+            # no target: ContactlessFrontend.exchange() logs an error and returns None
+            self.ev.append(dict(e="Send", h=h30(data), cc=cc, tp=self.tp()))
+            self.ev.append(dict(e="Answer", rk="none", ex=False))
+            self.last = "answer"
+            return None
         if self.activation:
             same = False
         elif self.proto == "T4":
@@ -120,7 +163,11 @@ class FaultClf(object):
             self.clean.append(h30(data))
             sc = self.script
             self.left = sc["b"] if sc and sc["p"] == self.npos else 0
-        self.ev.append(dict(e="Send", h=h30(data), cc=cc))
+        self.ev.append(dict(e="Send", h=h30(data), cc=cc, tp=self.tp()))
+        if self.gone:
+            self.ev.append(dict(e="Fault", k="timeout", ex=False))
+            self.last = "fault"
+            raise nfc.clf.TimeoutError("tag gone")
         if self.left > 0:
             self.left -= 1
             ex = False
@@ -191,6 +238,39 @@ def make_t4(fwi=10, fsci=2, rchunk=20, wtx=False, activated=True, typ="A", ats="
         target = nfc.clf.RemoteTarget("106B", sensb_res=bytearray(sim.sensb_res()))
     fwt = 4096 / 13.56E6 * 2 ** fwi
     return "T4", min(int(1 / fwt), 5), sim, clf, nfc.tag.activate(clf, target) if activated else target
+
+
+class NxpSim(object):
+    """sim.vendor_nxp.SimNxp behind the interface FaultClf expects from a Type 2 simulator"""
+    passive = False
+
+    def __init__(self, product, **kw):
+        import random
+        self.nxp = SimNxp(product, nak="byte", rnd=random.Random(16), **kw)     # RndB: the same in every run
+        self.uid = self.nxp.uid
+
+    def process(self, cmd):
+        return self.nxp.process(cmd)
+
+    def activate(self):
+        return self.nxp.activate()
+
+    def expects_packet2(self):
+        return bool(self.nxp.sel2)
+
+    pending = property(lambda self: self.nxp.sel2, lambda self, v: setattr(self.nxp, "sel2", bool(v)))
+
+    @property
+    def writes(self):
+        return len(self.nxp.log)
+
+
+def make_nxp(product, activated=True, **kw):
+    sim = NxpSim(product, **kw)
+    clf = FaultClf("T2", sim)
+    target = nfc.clf.RemoteTarget("106A", sens_res=bytearray(b"\x44\x00"), sel_res=bytearray(b"\x00"),
+                                  sdd_res=bytearray(sim.uid))
+    return "T2", 0, sim, clf, nfc.tag.activate(clf, target) if activated else target
 
 
 def ACTIVATE(target_and_clf):
@@ -301,6 +381,28 @@ def ops_table():
               [o for o in t4_chain if o[0] in ("update_binary_chained", "read_binary_chained")], (1, 3, 5, 6)))  # n_retry 5
     # the card requests S(WTX) before every answer: the S(WTX) exchange is a fault position of its own; after a fault in it
     # the command's recovery block (R(NAK) / R(ACK)) is due, in command chaining and in response chaining
+    # vendor variants on sim/vendor_nxp.py: password protection and authentication; protect(password) re-selects the tag
+    # with clf.sense() (a fault position of its own: the tag has left the field) before it authenticates
+    PW6, PW16 = b"\x31\x32\x33\x34\x41\x42", b"0123456789abcdef"
+    for name, pw in (("NTAG213", PW6), ("MF0UL11", PW6), ("ULC", PW16)):
+        def protected(t, pw=pw):
+            if t.protect(pw) is not True:
+                raise RuntimeError("setup: protect(password) failed")
+        vops = [
+            ("protect_password", nop, lambda t, pw=pw: t.protect(pw), ["False"], "qt"),
+            ("protect_password_from_3_read", nop, lambda t, pw=pw: t.protect(pw, read_protect=True, protect_from=3),
+             ["False"], "t" if name != "NTAG213" else "qt"),
+            ("authenticate", protected, lambda t, pw=pw: t.authenticate(pw), ["False"], "qt"),
+            ("authenticate_wrong_password", protected, lambda t, pw=pw: t.authenticate(pw[::-1]), ["False"], "qt"),
+            ("protect_lockbits", nop, lambda t: t.protect(), ["False"], "qt"),
+            ("is_present", nop, lambda t: t.is_present, ["False"], "qt"),
+            ("ndef_read", nop, lambda t: t.ndef, ["None"], "qt"),
+            ("ndef_write", need_ndef, set_octets(NDEF2), [], "t"),
+            ("dump", nop, lambda t: t.dump(), ["any"], "t"),
+            ("read_invalid_page", nop, lambda t: t.read(200), [], "qt"),
+        ]
+        T.append(("vendor-" + name, lambda name=name: make_nxp(name), vops))
+    T.append(("Type2Tag", lambda: make_t2(64), [("read_invalid_page", nop, lambda t: t.read(200), [], "qt")]))
     # activation: nfc.tag.activate(clf, target) on every tag type / vendor variant of the harness; every exchange of the
     # activation (RATS, ATTRIB, the AUTHENTICATE / GET_VERSION probes of tt2_nxp) is a fault position of budget 1
     NTAG213 = b"\x00\x04\x04\x02\x01\x00\x0F\x03"
@@ -351,7 +453,37 @@ def run_one(factory, setup, op, script):
         if tag is None:
             raise RuntimeError("activation failed")
         setup(tag)
+        clf.tagobj = tag
     clf.arm(script)
+    run_op(clf, tag, op)
+    return proto, nretry, clf, sim, tag
+
+
+class _DetOs(object):
+    """`os` as seen by nfc.tag.tt2_nxp while an operation runs: urandom() is reproducible (Ultralight C RndA), so that the
+    command bytes of a faulted run can be compared with those of the fault-free run"""
+    def __init__(self, real):
+        self._real, self._n = real, 0
+
+    def __getattr__(self, name):
+        return getattr(self._real, name)
+
+    def urandom(self, n):
+        self._n += 1
+        return hashlib.sha256(b"c16-rnda-%d" % self._n).digest()[:n]
+
+
+def run_op(clf, tag, op):
+    import nfc.tag.tt2_nxp as nxp
+    real_os = nxp.os
+    nxp.os = _DetOs(real_os if not isinstance(real_os, _DetOs) else real_os._real)
+    try:
+        _run_op(clf, tag, op)
+    finally:
+        nxp.os = real_os
+
+
+def _run_op(clf, tag, op):
     kind, errno, val, site = "ok", 0, "-", "-"
     try:
         with contextlib.redirect_stdout(io.StringIO()):      # tt3.py _format() prints its search interval
@@ -362,8 +494,25 @@ def run_one(factory, setup, op, script):
         kind, val, site = "raw", type(e).__name__, raise_site(e)
     except Exception as e:
         kind, val, site = "other", type(e).__name__, raise_site(e)
-    clf.ev.append(dict(e="Ret", kind=kind, errno=errno, val=val, site=site))
-    return proto, nretry, clf, sim, tag
+    clf.ev.append(dict(e="Ret", kind=kind, errno=errno, val=val, site=site, tp=clf.tp()))
+
+
+def followups(tag):
+    """further operations on a tag object whose tag has gone: (name, operation, documented failure values)"""
+    f = [("is_present", lambda t: t.is_present, ["False"]),
+         ("ndef", lambda t: t.ndef, ["None"]),
+         ("dump", lambda t: t.dump(), ["any"]),
+         ("format", lambda t: t.format(), ["False", "None"]),
+         ("protect", lambda t: t.protect(), ["False", "None"])]
+    if isinstance(tag, nfc.tag.tt2.Type2Tag):
+        f += [("read", lambda t: t.read(4), []), ("write", lambda t: t.write(5, b"abcd"), [])]
+    if hasattr(tag, "_authenticate"):
+        pw = b"0123456789abcdef"
+        f += [("authenticate", lambda t: t.authenticate(pw), ["False"]),
+              ("protect_password", lambda t: t.protect(pw), ["False"])]
+    if hasattr(type(tag), "signature"):
+        f += [("signature", lambda t: t.signature, ["any"])]
+    return f
 
 
 def scripts_for(n, bursts):
@@ -386,7 +535,7 @@ def gen_traces(tier, only=None):
             clean = list(clf.clean)
             ret = clf.ev[-1]
             const = dict(proto=proto, nRetry=nretry, clean=clean,
-                         cleanRet=dict(kind=ret["kind"], errno=ret["errno"], val=ret["val"]), doc=doc)
+                         cleanRet=dict(kind=ret["kind"], errno=ret["errno"], val=ret["val"]), doc=doc, gone=False)
             base = "%s/%s" % (cname, oname)
             traces.append(dict(id=base + "/clean", const=const, ev=clf.ev))
             meta[base + "/clean"] = dict(cls=cname, op=oname, script=None)
@@ -396,8 +545,26 @@ def gen_traces(tier, only=None):
                 tid = "%s/p%d-%s-b%d-%s" % (base, sc["p"], sc["k"], sc["b"], sc["m"])
                 traces.append(dict(id=tid, const=const, ev=clf2.ev))
                 meta[tid] = dict(cls=cname, op=oname, script=sc)
+            # the tag leaves the field right before the k-th sense() of the operation; afterwards every further
+            # operation on the SAME tag object must end with its documented failure value / TIMEOUT_ERROR
+            for k in range(1, clf.nsense + 1):
+                p2, n2, clf2, sim2, tag2 = run_one(factory, setup, op, dict(gone=k))
+                tid = "%s/gone-at-sense%d" % (base, k)
+                traces.append(dict(id=tid, const=const, ev=clf2.ev))
+                meta[tid] = dict(cls=cname, op=oname, script=dict(gone=k))
+                if op is ACTIVATE or not isinstance(tag2, nfc.tag.Tag):
+                    continue
+                for (fname, fop, fdoc) in followups(tag2):
+                    clf2.rearm()
+                    run_op(clf2, tag2, fop)
+                    fid = "%s/then-%s" % (tid, fname)
+                    fconst = dict(proto=proto, nRetry=nretry, clean=[], cleanRet=dict(kind="ok", errno=0, val="-"),
+                                  doc=fdoc, gone=True)
+                    traces.append(dict(id=fid, const=fconst, ev=clf2.ev))
+                    meta[fid] = dict(cls=cname, op=oname + "+" + fname, script=dict(gone=k, then=fname))
             traces.append(dict(id=base + "/cover", const=const,
-                               ev=[dict(e="Cover", N=clf.npos, bursts=list(bursts), scripts=scs)]))
+                               ev=[dict(e="Cover", N=clf.npos, bursts=list(bursts), scripts=scs, S=clf.nsense,
+                                        gone=list(range(1, clf.nsense + 1)))]))
             meta[base + "/cover"] = dict(cls=cname, op=oname, script="cover")
     return traces, meta
 
@@ -407,18 +574,21 @@ def classify(tr, v, m):
     line, act, why = v[1], v[2], v[3]
     ev = tr["ev"][line - 1]
     sc = m["script"]
-    cls = m["cls"].split("-")[0]
+    cls = m["cls"].split("-")[1] if m["cls"].startswith("vendor-") else m["cls"].split("-")[0]
     if why[0] != "inv":
         return "%s/%s:guard@%s" % (cls, m["op"], act), ev
     names, viol, ctx = why[1], why[2], why[3]
     v_ = sorted(viol[1]) if isinstance(viol, tuple) else sorted(viol)
     ret = tr["ev"][-1]
     rule = "+".join(v_) or ",".join(names)
+    if "stale-target" in v_:
+        # the tag object kept its target although the last sense() failed (or lost it although it succeeded)
+        return "%s:stale-target-after-sense@%s" % (cls, m["op"].split("+")[0]), ev
     if act != "Ret":
         return "%s/%s:%s@%s(cc=%s)" % (cls, m["op"], rule, act, ctx.get("cc")), ev
     if ret["kind"] in ("raw", "other"):
         return "%s:%s:%s@%s" % (cls, rule, ret["val"], ret["site"]), ev
-    kind = sc["k"] if isinstance(sc, dict) else "-"
+    kind = sc.get("k", "tag-gone") if isinstance(sc, dict) else "-"
     if ret["kind"] == "tagerr":
         return "%s:%s:errno=%d-after-%s@%s" % (cls, rule, ret["errno"], kind, ret["site"]), ev
     val = ret["val"] if ret["val"] in ("None", "True", "False") else "value"
@@ -442,8 +612,8 @@ def selftest_traces(traces):
     return [t1, t2, t3]
 
 
-WITNESSES = ["W_GiveUp", "W_Doc", "W_AbsorbAfter", "W_Rack", "W_Passive", "W_WtxFault"]
-BUGGY = ["Bounded", "NoResendAfterAnswer", "Retries", "OnlyTagError", "AtMostOncePerAnswer"]
+WITNESSES = ["W_GiveUp", "W_Doc", "W_AbsorbAfter", "W_Rack", "W_Passive", "W_WtxFault", "W_Gone"]
+BUGGY = ["Bounded", "NoResendAfterAnswer", "Retries", "OnlyTagError", "AtMostOncePerAnswer", "TargetFollowsSense"]
 
 
 def run(tier, seed):
@@ -512,13 +682,21 @@ def replay(rep, args):
     for entry in ops_table():
         cname, factory, ops = entry[:3]
         for (oname, setup, op, doc, tiers) in ops:
-            if (cname, oname) != (r["cls"], r["op"]):
+            if (cname, oname) != (r["cls"], r["op"].split("+")[0]):
                 continue
             proto, nretry, clf, sim, tag = run_one(factory, setup, op, None)
             ret = clf.ev[-1]
             const = dict(proto=proto, nRetry=nretry, clean=list(clf.clean),
-                         cleanRet=dict(kind=ret["kind"], errno=ret["errno"], val=ret["val"]), doc=doc)
-            p2, n2, clf2, sim2, tag2 = run_one(factory, setup, op, r["script"])
+                         cleanRet=dict(kind=ret["kind"], errno=ret["errno"], val=ret["val"]), doc=doc, gone=False)
+            sc = dict(r["script"])
+            then = sc.pop("then", None)
+            p2, n2, clf2, sim2, tag2 = run_one(factory, setup, op, sc)
+            if then:
+                fname, fop, fdoc = next(f for f in followups(tag2) if f[0] == then)
+                clf2.rearm()
+                run_op(clf2, tag2, fop)
+                const = dict(proto=proto, nRetry=nretry, clean=[], cleanRet=dict(kind="ok", errno=0, val="-"),
+                             doc=fdoc, gone=True)
             tr = dict(id="replay", const=const, ev=clf2.ev)
             verdicts, st = tlc.validate_traces("Trace_TagCmd.tla", "Trace_TagCmd.cfg", PID + "/replay", [tr], shards=1)
             v = verdicts["replay"]
